@@ -29,6 +29,35 @@ thread_local! {
     pub static STAGE_PTR: std::cell::Cell<*const std::sync::atomic::AtomicUsize> = const { std::cell::Cell::new(std::ptr::null()) };
 }
 
+thread_local! {
+    /// per-decode bound on the number of items any lazy iterator of a record may yield
+    pub static ITEM_LIMIT: std::cell::Cell<usize> = const { std::cell::Cell::new(usize::MAX) };
+    /// the first accessor whose iterator went past the bound (a never-ending iterator)
+    pub static RUNAWAY: std::cell::Cell<Option<&'static str>> = const { std::cell::Cell::new(None) };
+}
+
+/// Iterate at most ITEM_LIMIT items; an iterator that is still going then (typically one that
+/// returns the same Err forever) is recorded as a runaway instead of spinning.
+fn bounded<I: Iterator>(name: &'static str, it: I) -> impl Iterator<Item = I::Item> {
+    let lim = ITEM_LIMIT.with(|c| c.get());
+    let mut n = 0usize;
+    let mut it = it;
+    std::iter::from_fn(move || {
+        if n >= lim {
+            if it.next().is_some() {
+                RUNAWAY.with(|c| {
+                    if c.get().is_none() {
+                        c.set(Some(name))
+                    }
+                });
+            }
+            return None;
+        }
+        n += 1;
+        it.next()
+    })
+}
+
 /// record which part of the decode is running (read by the watchdog when it gives up)
 fn stage(name: &'static str) {
     let p = STAGE_PTR.with(|c| c.get());
@@ -90,11 +119,8 @@ pub fn touch_alignment(h: &sam::Header, r: &dyn sam::alignment::Record) {
     {
         let c = r.cigar();
         let _ = (c.is_empty(), c.len());
-        for op in c.iter() {
+        for op in bounded("cigar-iter", c.iter()) {
             dbg(&op);
-            if op.is_err() {
-                break;
-            }
         }
         dbg(&c.alignment_span());
         dbg(&c.read_length());
@@ -108,7 +134,7 @@ pub fn touch_alignment(h: &sam::Header, r: &dyn sam::alignment::Record) {
         let _ = s.is_empty();
         let _ = (s.get(0), s.get(n.wrapping_sub(1)), s.get(n), s.get(n / 2));
         let mut k = 0usize;
-        for b in s.iter() {
+        for b in bounded("sequence-iter", s.iter()) {
             k += b as usize;
         }
         let _ = k;
@@ -116,17 +142,14 @@ pub fn touch_alignment(h: &sam::Header, r: &dyn sam::alignment::Record) {
     {
         let q = r.quality_scores();
         let _ = (q.is_empty(), q.len());
-        for x in q.iter() {
+        for x in bounded("quality-scores-iter", q.iter()) {
             dbg(&x);
-            if x.is_err() {
-                break;
-            }
         }
     }
     {
         let d = r.data();
         let _ = d.is_empty();
-        for f in d.iter() {
+        for f in bounded("data-iter", d.iter()) {
             match f {
                 Ok((tag, value)) => {
                     dbg(&tag);
@@ -135,10 +158,7 @@ pub fn touch_alignment(h: &sam::Header, r: &dyn sam::alignment::Record) {
                     dbg(&value.as_int());
                     dbg(&d.get(&tag));
                 }
-                Err(e) => {
-                    dbg(&e);
-                    break;
-                }
+                Err(e) => dbg(&e),
             }
         }
         dbg(&d.get(&sam::alignment::record::data::field::Tag::READ_GROUP));
@@ -389,50 +409,38 @@ pub fn touch_variant(h: &vcf::Header, r: &dyn vcf::variant::Record) {
     {
         let ids = r.ids();
         let _ = (ids.is_empty(), ids.len());
-        for i in ids.iter() {
+        for i in bounded("ids-iter", ids.iter()) {
             dbg(i);
         }
     }
     {
         let rb = r.reference_bases();
         let _ = (rb.is_empty(), rb.len());
-        for b in rb.iter() {
+        for b in bounded("reference-bases-iter", rb.iter()) {
             dbg(&b);
-            if b.is_err() {
-                break;
-            }
         }
     }
     {
         let ab = r.alternate_bases();
         let _ = (ab.is_empty(), ab.len());
-        for b in ab.iter() {
+        for b in bounded("alternate-bases-iter", ab.iter()) {
             dbg(&b);
-            if b.is_err() {
-                break;
-            }
         }
     }
     dbg(&r.quality_score());
     {
         let f = r.filters();
         let _ = (f.is_empty(), f.len());
-        for x in f.iter(h) {
+        for x in bounded("filters-iter", f.iter(h)) {
             dbg(&x);
-            if x.is_err() {
-                break;
-            }
         }
         dbg(&f.is_pass(h));
     }
     {
         let info = r.info();
         let _ = (info.is_empty(), info.len());
-        for x in info.iter(h) {
+        for x in bounded("info-iter", info.iter(h)) {
             dbg(&x);
-            if x.is_err() {
-                break;
-            }
         }
         for k in ["DP", "AF", "END", "SVLEN", "nokey"] {
             dbg(&info.get(h, k));
@@ -441,28 +449,22 @@ pub fn touch_variant(h: &vcf::Header, r: &dyn vcf::variant::Record) {
     match r.samples() {
         Ok(samples) => {
             let _ = (samples.is_empty(), samples.len());
-            for k in samples.column_names(h) {
+            for k in bounded("samples-column-names", samples.column_names(h)) {
                 dbg(&k);
             }
             let nsamp = h.sample_names().len();
-            for series in samples.series() {
+            for series in bounded("samples-series", samples.series()) {
                 match series {
                     Ok(series) => {
                         dbg(&series.name(h));
-                        for v in series.iter(h) {
+                        for v in bounded("series-iter", series.iter(h)) {
                             match v {
                                 Ok(Some(SV::Genotype(g))) => {
-                                    for a in g.iter() {
+                                    for a in bounded("genotype-iter", g.iter()) {
                                         dbg(&a);
-                                        if a.is_err() {
-                                            break;
-                                        }
                                     }
                                 }
-                                Err(e) => {
-                                    dbg(&e);
-                                    break;
-                                }
+                                Err(e) => dbg(&e),
                                 other => dbg(&other),
                             }
                         }
@@ -470,28 +472,19 @@ pub fn touch_variant(h: &vcf::Header, r: &dyn vcf::variant::Record) {
                             dbg(&series.get(h, i));
                         }
                     }
-                    Err(e) => {
-                        dbg(&e);
-                        break;
-                    }
+                    Err(e) => dbg(&e),
                 }
             }
-            for sample in samples.iter().take(MAX_RECORDS) {
-                for x in sample.iter(h) {
+            for sample in bounded("samples-iter", samples.iter()) {
+                for x in bounded("sample-iter", sample.iter(h)) {
                     match x {
                         Ok((k, Some(SV::Genotype(g)))) => {
                             dbg(k);
-                            for a in g.iter() {
+                            for a in bounded("genotype-iter", g.iter()) {
                                 dbg(&a);
-                                if a.is_err() {
-                                    break;
-                                }
                             }
                         }
-                        Err(e) => {
-                            dbg(&e);
-                            break;
-                        }
+                        Err(e) => dbg(&e),
                         other => dbg(&other),
                     }
                 }
@@ -504,11 +497,8 @@ pub fn touch_variant(h: &vcf::Header, r: &dyn vcf::variant::Record) {
                 if let Some(series) = samples.select(h, k) {
                     match series {
                         Ok(series) => {
-                            for v in series.iter(h) {
+                            for v in bounded("series-iter", series.iter(h)) {
                                 dbg(&v);
-                                if v.is_err() {
-                                    break;
-                                }
                             }
                         }
                         Err(e) => dbg(&e),
@@ -720,10 +710,7 @@ fn fasta_all(data: &[u8], s: &mut Sum) {
             match ix.index_record() {
                 Ok(None) => break,
                 Ok(Some(rec)) => dbg(&rec),
-                Err(e) => {
-                    dbg(&e);
-                    break;
-                }
+                Err(e) => dbg(&e),
             }
         }
     }
@@ -766,10 +753,7 @@ fn fastq_all(data: &[u8], s: &mut Sum) {
         match ix.index_record() {
             Ok(None) => break,
             Ok(Some(rec)) => dbg(&rec),
-            Err(e) => {
-                dbg(&e);
-                break;
-            }
+            Err(e) => dbg(&e),
         }
     }
 }
@@ -787,22 +771,16 @@ fn touch_feature(r: &dyn gff::feature::Record) {
     {
         let a = r.attributes();
         let _ = a.is_empty();
-        for x in a.iter() {
+        for x in bounded("attributes-iter", a.iter()) {
             match x {
                 Ok((k, v)) => {
                     dbg(&k);
                     dbg(&v.as_string());
-                    for y in v.iter() {
+                    for y in bounded("attribute-value-iter", v.iter()) {
                         dbg(&y);
-                        if y.is_err() {
-                            break;
-                        }
                     }
                 }
-                Err(e) => {
-                    dbg(&e);
-                    break;
-                }
+                Err(e) => dbg(&e),
             }
         }
         for k in ["ID", "Parent", "gene_id", "nokey"] {
@@ -856,20 +834,14 @@ fn gff_all(data: &[u8], s: &mut Sum) {
     for lb in r.line_bufs().take(MAX_RECORDS) {
         match lb {
             Ok(lb) => dbg(&lb),
-            Err(e) => {
-                dbg(&e);
-                break;
-            }
+            Err(e) => dbg(&e),
         }
     }
     let mut r = gff::io::Reader::new(data);
     for rb in r.record_bufs().take(MAX_RECORDS) {
         match rb {
             Ok(rb) => dbg(&rb),
-            Err(e) => {
-                dbg(&e);
-                break;
-            }
+            Err(e) => dbg(&e),
         }
     }
 }
@@ -910,10 +882,7 @@ fn gtf_all(data: &[u8], s: &mut Sum) {
     for rb in r.record_bufs().take(MAX_RECORDS) {
         match rb {
             Ok(rb) => dbg(&rb),
-            Err(e) => {
-                dbg(&e);
-                break;
-            }
+            Err(e) => dbg(&e),
         }
     }
 }
@@ -951,7 +920,7 @@ fn bed_all(data: &[u8], s: &mut Sum) {
         dbg(&r.feature_end());
         let o = r.other_fields();
         let _ = (o.is_empty(), o.len());
-        for f in o.iter() {
+        for f in bounded("other-fields-iter", o.iter()) {
             dbg(&f);
         }
         dbg(&o.get(0));
@@ -962,14 +931,14 @@ fn bed_all(data: &[u8], s: &mut Sum) {
     bed_n!(4, data, s2, |r: &bed::Record<4>| {
         dbg(&r.name());
         dbg(&r.feature_end());
-        for f in r.other_fields().iter() {
+        for f in bounded("other-fields-iter", r.other_fields().iter()) {
             dbg(&f);
         }
     });
     bed_n!(5, data, s2, |r: &bed::Record<5>| {
         dbg(&r.name());
         dbg(&r.score());
-        for f in r.other_fields().iter() {
+        for f in bounded("other-fields-iter", r.other_fields().iter()) {
             dbg(&f);
         }
     });
@@ -980,7 +949,7 @@ fn bed_all(data: &[u8], s: &mut Sum) {
         dbg(&r.name());
         dbg(&r.score());
         dbg(&r.strand());
-        for f in r.other_fields().iter() {
+        for f in bounded("other-fields-iter", r.other_fields().iter()) {
             dbg(&f);
         }
     });
@@ -1119,10 +1088,7 @@ fn index_all(fmt: &str, data: &[u8], s: &mut Sum) {
                                 for rec in it.records().take(MAX_RECORDS) {
                                     match rec {
                                         Ok(rec) => touch_alignment(&h, &rec),
-                                        Err(e) => {
-                                            dbg(&e);
-                                            break;
-                                        }
+                                        Err(e) => dbg(&e),
                                     }
                                 }
                             }
@@ -1236,6 +1202,16 @@ pub fn bgzf_seek(data: &[u8], coffset: u64, uoffset: u16, how: u64) -> String {
 // query a valid data file through an arbitrary index
 
 pub fn index_query(kind: &str, index_bytes: &[u8]) -> String {
+    ITEM_LIMIT.with(|c| c.set(1 << 20));
+    RUNAWAY.with(|c| c.set(None));
+    let r = index_query_inner(kind, index_bytes);
+    match RUNAWAY.with(|c| c.take()) {
+        Some(name) => format!("runaway:{name}"),
+        None => r,
+    }
+}
+
+fn index_query_inner(kind: &str, index_bytes: &[u8]) -> String {
     stage("index-read");
     let mut s = Sum::new();
     let regions = ["sq0", "sq0:1-30", "sq0:35-60", "sq1:5-9", "sq1", "sq0:100000-200000"];
@@ -1398,6 +1374,16 @@ pub const FORMATS: &[&str] = &[
 
 /// Run every reader of `fmt` over the sealed file bytes.
 pub fn decode(fmt: &str, file: &[u8]) -> String {
+    ITEM_LIMIT.with(|c| c.set(16 * file.len() + 4096));
+    RUNAWAY.with(|c| c.set(None));
+    let r = decode_inner(fmt, file);
+    match RUNAWAY.with(|c| c.take()) {
+        Some(name) => format!("runaway:{name}"),
+        None => r,
+    }
+}
+
+fn decode_inner(fmt: &str, file: &[u8]) -> String {
     let mut s = Sum::new();
     match fmt {
         "bgzf" => bgzf_all(file, &mut s),
